@@ -16,6 +16,10 @@ PAYLOADS_NOSLASH = [
     '"><xss-7 onx-7=1>', "'><xss-7 onx-7='1", "<xss-7>", "&lt;xss-7&gt;", 'a&b<c>d"e\'f', "]]><xss-7>",
     '" onx-7="1', "' onx-7='1", "<!--xss-7", "--><xss-7>", "&#60;xss-7&#62;", "<xss-7 onx-7=1", "x\"y", "&amp", "&",
     "<", ">", "\"", "'", "<b>bold<", "${x}", "%22%3E%3Cxss-7%3E", "\u00e9<xss-7>", "<?xss-7?>",
+    # spellings that only become markup if some layer interprets them: regular-expression replacement templates
+    # (octal, hex, group references), printf/format syntax, a percent-escape next to live markup
+    "\\074xss-7\\040onx-7=1\\076", "\\x3cxss-7\\x3e", "\\g<0>\\1\\n", "\\u003cxss-7\\u003e", "a\\", "%s%(x)s%n{0}{x!r}",
+    'up%20to"><xss-7 onx-7=1>', "a%41'><xss-7 onx-7='1", "%3Cxss-7%3E<xss-7>", "100%<xss-7>",
 ]
 PAYLOADS_SLASH = ["</TT></A><xss-7>", "</a><xss-7 onx-7=1>", "</p></card><xss-7>", "</TITLE><xss-7>", "<xss-7/>",
                   "</TD></TR><TR onx-7=1>"]
@@ -425,7 +429,7 @@ def main() -> int:
             pl = list(PAYLOADS_NOSLASH) + (PAYLOADS_SLASH if pos.slash_ok else [])
             extra = pos.extra_payloads()
             if quick:
-                pl = pl[:6] + rng.sample(pl[6:], 6) + extra[:4]
+                pl = pl + extra[:4]
             else:
                 # thorough: also seeded combinations
                 pl += [rng.choice(PAYLOADS_NOSLASH) + rng.choice(PAYLOADS_NOSLASH) for _ in range(40)] + extra
